@@ -15,12 +15,30 @@
       stays between the own accesses and the closure), `C14_tree_second_generation_same`
       (a second generation reports the same SETS and leaves the generated entries the same sets),
       `C14_tree_second_generation_ok`.
+    * ALL programs: a function none of whose calls resolves is never written to (`C14_leaf_untouched`).
+    * whole PROJECTS (`RattrModel.ResultsProject`: the target's FileIr and the live FileIr of every followed
+      import, call resolution computed by the model — resolve_function / resolve_class_init /
+      resolve_import): result generation — completed or aborted by an uncaught ImportError —
+      leaves the key list, the symbols, the interfaces and the call records of EVERY FileIr as they were
+      (`C14_project_structure_unchanged[_raised]`), only adds names (`C14_project_monotone[_raised]`), never
+      writes to a function without a resolvable call — e.g. one whose callees are all @rattr_ignore'd,
+      excluded, undefined, methods or in a module that is not followed
+      (`C14_project_function_without_resolvable_call_untouched`), and a second generation runs the same
+      program with the same resolution of every call (`C14_project_second_generation_same_program`); every
+      resolved target is an entry of one of the project's FileIrs (`C14_project_target_is_an_entry`); a callee
+      declared by a followed module but absent from its FileIr resolves to nothing
+      (`C14_project_ignored_import_callee_resolves_to_none`).
+      `C14_project_full` (the project is unchanged) is false: the sets of an IMPORTED function that
+      has a resolvable call grow (`C14_cex_import_mutation`).
 -/
 import RattrProofs.Lemmas.Results
 import RattrProofs.Lemmas.ResultsCex
 import RattrProofs.Lemmas.ResultsDepthOne
 import RattrProofs.Lemmas.ResultsTree
 import RattrProofs.Lemmas.ResultsTreeCheck
+import RattrProofs.Lemmas.ResultsLeaf
+import RattrProofs.Lemmas.ResultsProject
+import RattrProofs.Lemmas.ResultsProjectCex
 
 namespace Rattr.C14
 open Rattr Rattr.Results Rattr.Cex
@@ -178,5 +196,181 @@ example : TreeLike Pchain ∧ CidArgs Pchain ∧
       some ⟨[nm "x.a0" "x", nm "x.b0" "x", nm "x.d0" "x"], [nm "x.c0" "x"], [nm "x.d1" "x"]⟩ ∧
     storeAfter Pchain σchain [0, 1, 2, 3] 3 = some (σchain 3) :=
   ⟨Pchain_treeLike, Schain_hyps0.cid, by decide +kernel, by decide +kernel⟩
+
+/-! ### all programs: leaves are never written to -/
+
+/-- For every program, order and store: a function none of whose calls resolves keeps its IR. -/
+theorem C14_leaf_untouched (P : Prog) (order : List Key) (σ σ' : Store) (rs : List (Key × IrSets))
+    (h : generate P order σ = .ok (rs, σ')) (k : Key) (hk : IsLeaf P k) : σ' k = σ k :=
+  generate_leaf P order σ σ' rs h k hk
+
+/-- non-vacuity: in the diamond `Pd` the leaf keeps its IR although it is inlined twice. -/
+example : IsLeaf Pd 3 ∧ ¬ IsLeaf Pd 0 := by
+  constructor
+  · intro c hc; simp [fnAt, Pd] at hc
+  · intro h
+    have := h (call 0 "one" ["a"]) (by simp [fnAt, Pd])
+    simp [Pd, call] at this
+
+/-! ### whole projects: the target's FileIr and the FileIr of every followed import -/
+
+open Rattr.Project Rattr.Resolve
+
+/-- the property for a project: result generation returns the project it was given. -/
+def C14_project_full : Prop :=
+  ∀ (p p' : Proj) rs, generateProject p = .ok rs p' →
+    (modules p').map (fun m => m.fns.map (·.ir)) = (modules p).map (fun m => m.fns.map (·.ir))
+
+/-- `helpers.chain(thing): thing.c; plain(thing.sub)` reached from `target.f(b): chain(b)`: afterwards the
+IR of the IMPORTED function `chain` holds `thing.sub.x` (and the target's `f` holds chain's names). -/
+theorem C14_cex_import_mutation :
+    irsAfter projChain = some
+      [[⟨[nm "b" "b", nm "b.c" "b", nm "b.sub" "b", nm "thing.sub.x" "thing.sub"], [], []⟩],
+       [⟨[nm "thing.x" "thing"], [], []⟩,
+        ⟨[nm "thing.c" "thing", nm "thing.sub" "thing", nm "thing.sub.x" "thing.sub"], [], []⟩]] ∧
+    (modules projChain).map (fun m => m.fns.map (·.ir)) =
+      [[⟨[nm "b" "b"], [], []⟩],
+       [⟨[nm "thing.x" "thing"], [], []⟩, ⟨[nm "thing.c" "thing", nm "thing.sub" "thing"], [], []⟩]] := by
+  decide +kernel
+
+theorem C14_project_full_false : ¬ C14_project_full := by
+  intro h
+  have hc := C14_cex_import_mutation
+  unfold irsAfter at hc
+  split at hc
+  · rename_i rs p' hgen
+    have := h projChain p' rs hgen
+    have h1 := hc.1
+    injection h1 with h1
+    rw [this, hc.2] at h1
+    revert h1
+    decide
+  · exact absurd hc.1 (by simp)
+
+/-- Result generation changes nothing but the three sets: the list of modules, every module's name and
+symbols, every FileIr's key list (kind, name, file, interface — in order) and every call record are the
+same afterwards; so is everything call resolution reads (`envOf`). -/
+theorem C14_project_structure_unchanged (p p' : Proj) (rs : List (Key × IrSets))
+    (h : generateProject p = .ok rs p') : skeleton p' = skeleton p ∧ envOf p' = envOf p := by
+  obtain ⟨σ', _, e⟩ := generateProject_ok h
+  subst e
+  exact ⟨skeleton_writeBack p σ', envOf_writeBack p σ'⟩
+
+/-- …also when generation is aborted by an uncaught ImportError / RecursionError of `resolve_import`. -/
+theorem C14_project_structure_unchanged_raised (p p' : Proj) (rs : List (Key × IrSets)) (f : Key)
+    (h : generateProject p = .raised rs p' f) : skeleton p' = skeleton p ∧ envOf p' = envOf p := by
+  obtain ⟨_, σ', _, e⟩ := generateProject_raised h
+  subst e
+  exact ⟨skeleton_writeBack p σ', envOf_writeBack p σ'⟩
+
+/-- Every set of every function of every module only gains names. -/
+theorem C14_project_monotone (p p' : Proj) (rs : List (Key × IrSets))
+    (h : generateProject p = .ok rs p') : StoreLe (store0 p) (store0 p') := by
+  obtain ⟨σ', hg, e⟩ := generateProject_ok h
+  subst e
+  exact storeLe_writeBack p σ' (generate_le _ _ _ _ _ hg)
+
+theorem C14_project_monotone_raised (p p' : Proj) (rs : List (Key × IrSets)) (f : Key)
+    (h : generateProject p = .raised rs p' f) : StoreLe (store0 p) (store0 p') := by
+  obtain ⟨_, σ', hg, e⟩ := generateProject_raised h
+  subst e
+  exact storeLe_writeBack p σ' (generate_le _ _ _ _ _ hg)
+
+/-- A function (of the target or of an import) none of whose calls resolves keeps its three sets. -/
+theorem C14_project_leaf_untouched (p p' : Proj) (rs : List (Key × IrSets))
+    (h : generateProject p = .ok rs p') (k : Key) (hk : IsLeaf (toProg p) k) :
+    store0 p' k = store0 p k := by
+  obtain ⟨σ', hg, e⟩ := generateProject_ok h
+  subst e
+  exact leaf_writeBack p σ' k (generate_leaf _ _ _ _ _ hg k hk)
+
+/-- The same in the project's own terms: if `find_call_target_and_ir` yields no target for any call of
+the `k`-th function (callees @rattr_ignore'd, excluded, undefined, methods, builtins, in a module that
+is not followed, …), its IR after generation is its IR before. -/
+theorem C14_project_function_without_resolvable_call_untouched (p p' : Proj)
+    (rs : List (Key × IrSets)) (h : generateProject p = .ok rs p') (k : Key) (f : PFn)
+    (hf : (allFns p)[k]? = some f) (hc : ∀ c ∈ f.calls, resolveCid p c.call.cid = none) :
+    ((allFns p')[k]?).map (·.ir) = some f.ir := by
+  have hleaf : IsLeaf (toProg p) k := by
+    intro c hcm
+    rw [fnAt_toProg p k f hf] at hcm
+    obtain ⟨pc, hpc, e⟩ := List.mem_map.mp hcm
+    subst e
+    exact hc pc hpc
+  have hs := C14_project_leaf_untouched p p' rs h k hleaf
+  obtain ⟨σ', _, e⟩ := generateProject_ok h
+  subst e
+  have hk : k < (allFns p).length := by
+    rcases Nat.lt_or_ge k (allFns p).length with h' | h'
+    · exact h'
+    · rw [List.getElem?_eq_none h'] at hf; cases hf
+  rw [allFns_writeBack, getElem?_setIrs, hf]
+  simp only [Option.map_some, Nat.zero_add, Option.some.injEq]
+  have h0 : store0 p k = f.ir := by unfold store0 storeOf; simp [hf]
+  rw [store0_writeBack] at hs
+  simp only [hk, if_true] at hs
+  rw [hs, h0]
+
+/-- Whatever `find_call_target_and_ir` answers for a call is an entry of the target's or of a followed
+import's FileIr (a key below the number of functions of the project): there is no FunctionIr result
+generation could write to that is not one of the project's — in particular none made up on the way. -/
+theorem C14_project_target_is_an_entry (p : Proj) (t : CallTarget) (k : Key)
+    (h : findCallTarget p t = .key k) : k < (allFns p).length := by
+  have := findCallTargetE_lt h
+  rw [env_fns, List.length_map] at this
+  exact this
+
+/-- A second generation over the project the first one left runs the same flat program, the same
+roots in the same order and resolves every call as before: whatever differs the second time comes
+from the three sets alone. -/
+theorem C14_project_second_generation_same_program (p p' : Proj) (rs : List (Key × IrSets))
+    (h : generateProject p = .ok rs p') :
+    toProg p' = toProg p ∧ order p' = order p ∧ raisingCids p' = raisingCids p ∧
+      ∀ t, findCallTarget p' t = findCallTarget p t := by
+  obtain ⟨σ', _, e⟩ := generateProject_ok h
+  subst e
+  refine ⟨?_, order_writeBack p σ', ?_, ?_⟩
+  · unfold toProg; rw [envOf_writeBack]
+  · unfold raisingCids; rw [envOf_writeBack]
+  · intro t; unfold findCallTarget; rw [envOf_writeBack]
+
+/-- `resolve_import` on a callee that the followed module DECLARES (a `Func` / `Class` of its root context)
+but that has no entry in the module's FileIr — `@rattr_ignore`d or excluded: "it is likely ignored", no
+target, for every project. (With `C14_project_structure_unchanged`: and no entry is created for it.) -/
+theorem C14_project_ignored_import_callee_resolves_to_none (e : Env) (fuel : Nat) (n q mn : Str)
+    (ctx : MCtx) (fnm : Str) (isCls : Bool) (hfuel : e.fuel = fuel + 1)
+    (hm : moduleNameOf e.existing q = some mn) (hi : e.ignored.contains mn = false)
+    (hctx : Dict.get? (world e).irs mn = some ctx)
+    (hs : lookupSym ctx (localNameOf n mn) = some (if isCls then MSym.cls fnm false else MSym.func fnm false)) :
+    findCallTargetE e (.imp n q) = .none_ := by
+  unfold findCallTargetE
+  rw [hfuel]
+  have hw1 : (world e).existing = e.existing := rfl
+  have hw2 : (world e).ignored = e.ignored := rfl
+  have hi' : mn ∉ e.ignored := by simpa using hi
+  cases isCls <;> simp [resolveImport, hw1, hw2, hm, hctx, hs, hi']
+
+/-- non-vacuity: the hypotheses hold for `opaque` of `projIgnored`. -/
+example : findCallTargetE (envOf projIgnored) (.imp (s "opaque") (s "helpers.opaque")) = .none_ :=
+  C14_project_ignored_import_callee_resolves_to_none (envOf projIgnored) 63 (s "opaque")
+    (s "helpers.opaque") (s "helpers")
+    [.func (s "rattr_ignore") true, .func (s "opaque") false, .func (s "plain") true] (s "opaque") false
+    rfl (by decide +kernel) (by decide +kernel) (by decide +kernel) (by decide +kernel)
+
+/-- the seeded-change shape (a call to an @rattr_ignore'd function of a followed import, test by
+evaluation): the call resolves to nothing, the import's key list is what it was, `plain` (no resolvable
+call) keeps its IR. -/
+theorem C14_project_ignored_imported_callee :
+    findCallTarget projIgnored (.imp (s "opaque") (s "helpers.opaque")) = .none_ ∧
+    findCallTarget projIgnored (.imp (s "plain") (s "helpers.plain")) = .key 2 ∧
+    keysAfter projIgnored = some (keysOf projIgnored) ∧
+    keysOf projIgnored = [(s "target", [s "f"]), (s "helpers", [s "rattr_ignore", s "plain"])] := by
+  decide +kernel
+
+/-- non-vacuity of the project theorems: `projChain` generates `ok`, its imported `plain` has no
+resolvable call while its imported `chain` has one. -/
+example : (irsAfter projChain).isSome ∧ IsLeaf (toProg projChain) 1 ∧ ¬ IsLeaf (toProg projChain) 2 := by
+  unfold IsLeaf
+  decide +kernel
 
 end Rattr.C14
